@@ -26,7 +26,7 @@ PROPS["C08"] = {
     "technique": "metamorphic testing: permuted directory listing orders and root counts must not change the result; sortedness predicate on the output",
     "level_text": "Generated-input search with metamorphic oracles between real runs: the same tree is scanned under 2-4 independently drawn listing permutations of every directory and both directory-handle modes and must give identical, sorted output; a scan of 2-3 roots must equal the multiset union of the single-root scans with no package object repeated.",
     "level_note": "Trusted: the in-memory FS's permutation knob. Go map-iteration randomness is sampled by repeated runs, not controlled. The free-text failure reason is excluded (it concatenates errors in walk order, as the repository's own tests acknowledge); the number of status entries per plugin for several roots is not pinned by the property and not asserted.",
-    "rule": "rapid-generated trees x 2..4 listing permutations x both ReadDirFile modes x fake extractors drawing package names from a pool of 1..3 so that sort keys tie, or from pools of names/versions that are prefixes of one another around '/' (foo, foo-bar, foo.bar, foo/bar, 1.0, 1.0.1, 1.0-rc1, b/c) x 0..3 fake detectors with findings tying on the advisory reference; every 4th case scans 2..3 roots (distinct trees or the same tree twice); non-trivial = (single root) >=2 directories with >=2 entries and >=2 packages, (multi root) >=2 roots contributing packages; distinct by hash of the case JSON",
+    "rule": "rapid-generated trees x 2..4 listing permutations x both ReadDirFile modes x fake extractors drawing package names from a pool of 1..3 so that sort keys tie, or from pools of names/versions that are prefixes of one another around '/' (foo, foo-bar, foo.bar, foo/bar, 1.0, 1.0.1, 1.0-rc1, b/c) x 0..3 fake detectors with findings tying on the advisory reference; every 4th case scans 2..3 roots (distinct trees or the same tree twice); non-trivial = (single root) >=2 directories with >=2 entries and >=2 packages, (multi root) >=2 roots contributing packages; distinct by hash of the case JSON Multi-root cases also decide the plugin statuses: an extractor's status must be what its single-root statuses add up to (something went wrong in some root / something was found in some root); later roots may hold hardly anything and one extractor may fail on every second file (classes multi_root_extractor_with_errors). Fake extractors report packages at 1..3 locations in unsorted order; the printed location list is the last sort key and every package's locations must come out sorted.",
     "assumptions": ["documented order: packages by (name, version, extractor name, locations), statuses by name, findings by (advisory reference, extra)",
                     "detectors only see the first root by design and are left out of multi-root cases"],
     "legs": [{"fam": "scanfam", "run": "^TestC08$"}],
@@ -40,7 +40,7 @@ PROPS["C09"] = {
     "technique": "fault injection: enumeration of every single fault and pairs of faults over the logged FS operations of rapid-generated trees, differential against the fault-free run",
     "level_text": "For every generated small tree the fault space is enumerated rather than sampled: a fault-free probe run logs every FS operation (stat, open, k-th directory read, stat of an open file, n-th read); every single fault (operation x {permission, I/O, not-exist}) and every pair (exhaustive up to 400 pairs, else an evenly spaced sample of ~150) is injected under all 8 combinations of fatal-on-error x size limit x directory-handle mode, and the outcome is compared with the fault-free run of the same tree. The trees themselves are sampled by rapid.",
     "level_note": "Trusted: the in-memory FS's fault plan and operation log (harness/internal/memfs), the region rule of DESIGN Appendix A.5. Faults are injected at the fs.FS interface; kernel-level partial reads are not modelled. With fatal-on-error set, whether a file-level (non-traversal) fault is fatal is not pinned by the property and not asserted.",
-    "rule": "rapid-generated trees (<=12 nodes, depth <=3, .gitignore files, symlinks) x 1..2 fake extractors; a third of the scenarios list 2..4 PathsToExtract (tree nodes, sometimes a missing path); per tree every single fault over every logged operation (incl. the stat of listed paths) x 3 error kinds, sticky variants, plus pairs, x fatal-on-error on/off x size limit off/median x ReadDirFile on/off; one evaluation per (tree, options, fault set); non-trivial = the faulted operation was actually reached AND at least one Extract call outside the failing region is still expected; distinct by (scenario hash, options, fault set)",
+    "rule": "rapid-generated trees (<=12 nodes, depth <=3, .gitignore files, symlinks) x 1..2 fake extractors; a third of the scenarios list 2..4 PathsToExtract (tree nodes, sometimes a missing path); per tree every single fault over every logged operation (incl. the stat of listed paths) x 3 error kinds, sticky variants, plus pairs, x fatal-on-error on/off x size limit off/median x ReadDirFile on/off; one evaluation per (tree, options, fault set); non-trivial = the faulted operation was actually reached AND at least one Extract call outside the failing region is still expected; distinct by (scenario hash, options, fault set) A quarter of the whole-tree scenarios add a fault-free second scan root (before or after the faulted one) whose results count as the extractor's other results (classes scenario_with_fault_free_second_root_1/2). After the first wait that runs into the five-minute hang limit, further waits in the process are limited to 40 s so that shrinking finishes.",
     "assumptions": ["failing region of a fault = the subtree of the directory (stat/open/readdir on a directory, or an unreadable .gitignore) or the single file (open, stat of the handle, read, lazy stat)",
                     "an extractor that loses a required file to an open/fstat/read fault must be Failed, or PartiallySucceeded when it reported inventory elsewhere"],
     "legs": [{"fam": "scanfam", "run": "^TestC09$"}],
@@ -66,7 +66,7 @@ PROPS["C20"] = {
     "technique": "rapid-generated fake detectors and inventories run through Scanner.Scan, checked against a model of index contents, finding tagging, statuses and advisory consistency",
     "level_text": "Generated-input search through the public Scan entry point: fake extractors (filesystem and standalone, packages with and without purl, colliding names and types) and 0-4 fake detectors with generated finding lists; the index each detector receives, the emitted findings, the per-detector statuses and the overall status are compared with a direct model of the statement.",
     "level_note": "Trusted: recording fake plugins (harness/internal/recext). A nil *Finding inside a finding list is treated as API misuse and not generated.",
-    "rule": "rapid-generated small trees x 1..3 fake filesystem extractors (1..3 packages per file, purl types generic/pypi/npm/deb, purls with and without namespace, qualifiers and subpath, purl names equal to / derived from / shared between package names, 0..100% of packages without purl, name pools so that type+name collide; GetSpecific and GetAllOfType are checked for recall and precision, incl. absent types and names) x 0..2 standalone extractors x 0..4 fake detectors each returning 0..3 findings (advisory ids from a pool of 6, titles/severities that make bodies equal or unequal, ~13% without advisory or id) and possibly an error; non-trivial = >=2 detectors and >=2 findings; distinct by hash of the case JSON",
+    "rule": "rapid-generated small trees x 1..3 fake filesystem extractors (1..3 packages per file, purl types generic/pypi/npm/deb, purls with and without namespace, qualifiers and subpath, purl names equal to / derived from / shared between package names, 0..100% of packages without purl, name pools so that type+name collide; GetSpecific and GetAllOfType are checked for recall and precision, incl. absent types and names) x 0..2 standalone extractors x 0..4 fake detectors each returning 0..3 findings (advisory ids from a pool of 6, titles/severities that make bodies equal or unequal, ~13% without advisory or id) and possibly an error; non-trivial = >=2 detectors and >=2 findings; distinct by hash of the case JSON Detectors may share a name (one case in five with >= 2 detectors; classes detectors_share_a_name, detectors_share_a_name_outcomes_differ): status entries under a name are compared as a multiset with what the detectors of that name returned. One detector in six declares a built-in extractor (python/requirements, go/gomod) as required that is not configured: the scan must enable and run it (status entry), and the package its file declares must be in the inventory and in every index (class detector_requires_extractor_not_configured).",
     "assumptions": ["two advisories are 'equal in content' iff all their fields are deeply equal"],
     "legs": [{"fam": "scanfam", "run": "^TestC20$"}],
     "timeout": {"quick": 600, "thorough": 2400},
